@@ -245,3 +245,63 @@ def translate_data4(fn, lean_name, isbit_lean_name):
     t.locals, t.opt, t.isbit = set(), True, isbit_lean_name
     body = t.block4(tree.body, 1)
     return "def %s (d0 d1 d2 d3 : Nat) (bit : Nat) : Option (Nat × Nat × Nat × Nat) :=\n%s\n" % (lean_name, body)
+
+
+# --------------------------------------------------------------------------- message-kind predicates of utils.py
+
+def translate_msgpred(fn, lean_name):
+    """`is_cer_message(msg)` and friends: a function of one message whose statements are `if <cond>: return True|False`,
+    `return True|False` (falling off the end = None = false), with <cond> built from not/and/or over
+    `msg.header.is_request()`, `msg.header.is_proxiable()`, `msg.header.command_code ==/!= <module-level bytes constant>`.
+    Result: `def name (isReq isProx : Bool) (cmd : Nat) : Bool`."""
+    src = textwrap.dedent(inspect.getsource(fn))
+    tree = ast.parse(src).body[0]
+    args = [a.arg for a in tree.args.args]
+    if len(args) != 1 or tree.args.vararg or tree.args.kwarg or tree.args.kwonlyargs or tree.args.defaults:
+        raise Untranslatable("signature")
+    m = args[0]
+    G = fn.__globals__
+
+    def hdr_call(e, name):
+        return (isinstance(e, ast.Call) and not e.args and not e.keywords and isinstance(e.func, ast.Attribute) and e.func.attr == name
+                and isinstance(e.func.value, ast.Attribute) and e.func.value.attr == "header"
+                and isinstance(e.func.value.value, ast.Name) and e.func.value.value.id == m)
+
+    def cond(e):
+        if isinstance(e, ast.Constant) and isinstance(e.value, bool):
+            return "true" if e.value else "false"
+        if isinstance(e, ast.UnaryOp) and isinstance(e.op, ast.Not):
+            return "(!%s)" % cond(e.operand)
+        if isinstance(e, ast.BoolOp):
+            return "(" + (" && " if isinstance(e.op, ast.And) else " || ").join(cond(v) for v in e.values) + ")"
+        if hdr_call(e, "is_request"):
+            return "isReq"
+        if hdr_call(e, "is_proxiable"):
+            return "isProx"
+        if isinstance(e, ast.Compare) and len(e.ops) == 1 and isinstance(e.ops[0], (ast.Eq, ast.NotEq)):
+            l, r = e.left, e.comparators[0]
+            if (isinstance(l, ast.Attribute) and l.attr == "command_code" and isinstance(l.value, ast.Attribute) and l.value.attr == "header"
+                    and isinstance(l.value.value, ast.Name) and l.value.value.id == m and isinstance(r, ast.Name)
+                    and isinstance(G.get(r.id), bytes) and len(G[r.id]) == 3):
+                c = "decide (cmd = %d)" % int.from_bytes(G[r.id], "big")
+                return c if isinstance(e.ops[0], ast.Eq) else "(!%s)" % c
+        raise Untranslatable("condition " + ast.dump(e)[:80])
+
+    def block(stmts, ind):
+        pad = "  " * ind
+        stmts = [s for s in stmts if not (isinstance(s, ast.Expr) and isinstance(s.value, ast.Constant))]
+        if not stmts:
+            return pad + "false"                      # falling off the end returns None
+        s, rest = stmts[0], stmts[1:]
+        if isinstance(s, ast.Return):
+            if s.value is None:
+                return pad + "false"
+            return pad + cond(s.value)
+        if isinstance(s, ast.If):
+            ends = lambda b: bool(b) and isinstance(b[-1], ast.Return)
+            then = block(list(s.body) + ([] if ends(s.body) else rest), ind + 1)
+            els = block(list(s.orelse) + ([] if ends(s.orelse) else rest), ind + 1)
+            return pad + "if %s then\n%s\n%selse\n%s" % (cond(s.test), then, pad, els)
+        raise Untranslatable("statement " + type(s).__name__)
+
+    return "def %s (isReq isProx : Bool) (cmd : Nat) : Bool :=\n%s\n" % (lean_name, block(tree.body, 1))
